@@ -132,6 +132,35 @@ def twins_oracle(rng):
             fails.append(rep(kind, "set_params-twin-differs-from-constructed", {"key": key}))
     except Exception as e:
         fails.append(rep(kind, "twin-raises", {"error": f"{type(e).__name__}: {str(e)[:80]}"}))
+    # the estimator's OWN hyper-parameters (not routed to a nested module): value visible through get_params and
+    # attribute access, and the estimator then behaves like one constructed with it
+    own = {"Fuzzy": ("beta", 0.5, lambda: artlib.FuzzyART(rho2, 1e-3, 0.5)),
+           "Hyper": ("r_hat", 0.5, lambda: artlib.HypersphereART(rho2, 1e-3, 1.0, 0.5)),
+           "ART2A": ("beta", 0.5, lambda: artlib.ART2A(rho2, 0.1, 0.5)),
+           "DualVig": ("rho_lower_bound", 0.5, lambda: artlib.DualVigilanceART(fz(rho2), 0.5)),
+           "Fusion": ("gamma_values", [0.125, 0.875], lambda: artlib.FusionART([fz(rho2), fz(0.5)], [0.125, 0.875], [2, 2])),
+           "Topo": (rng.choice(["tau", "phi", "beta_lower"]), None, None),
+           "CVIART": ("validity", 2, None), "iCVIFuzzy": ("beta", 0.5, None)}.get(kind)
+    if own is not None:
+        okey, oval, mk2 = own
+        if kind == "Topo":
+            oval = {"tau": 3, "phi": 1, "beta_lower": 0.25}[okey]
+        try:
+            with contextlib.redirect_stdout(io.StringIO()):
+                a2 = mk(rho2)
+                a2.set_params(**{okey: oval})
+            got, attr = a2.get_params().get(okey, "<missing>"), getattr(a2, okey, "<no attribute>")
+            same = lambda u: (list(u) == list(oval)) if isinstance(oval, list) else (u == oval)
+            if not (same(got) and same(attr)):
+                fails.append(rep(kind, "set_params-own-parameter-dropped", {"key": okey, "set": oval, "get_params": repr(got), "attribute": repr(attr)}))
+            elif mk2 is not None:
+                with contextlib.redirect_stdout(io.StringIO()):
+                    b2 = mk2()
+                train(a2); train(b2)
+                if labels(a2) != labels(b2):
+                    fails.append(rep(kind, "set_params-own-twin-differs-from-constructed", {"key": okey}))
+        except Exception as e:
+            fails.append(rep(kind, "own-twin-raises", {"key": okey, "error": f"{type(e).__name__}: {str(e)[:80]}"}))
     # rejection
     try:
         a.set_params(no_such_parameter=1.0)
